@@ -16,3 +16,11 @@ Print Assumptions C12_get_real_name.
 Print Assumptions C12_get_parent_name.
 Print Assumptions C12_get_name.
 Print Assumptions C12_function_target.
+
+(* pipeline level, finite family (bound in the statement): 11 contexts x 3 qualifiers x 4 quotings x 5 alias forms through
+   lexer, splitter and all 25 grouping passes: the tree contains an Identifier with exactly the written text on which the
+   accessors return the written parts *)
+From SqlModel.Inst Require C12Fin.
+Definition C12_pipeline_fin_thm := C12Fin.C12_pipeline_fin.
+Definition C12_pipeline_fin_member_thm := C12Fin.C12_pipeline_fin_member.
+Print Assumptions C12Fin.C12_pipeline_fin_member.
